@@ -5,6 +5,7 @@ package main
 import (
 	"fmt"
 	"go/types"
+	"os"
 	"strings"
 
 	"golang.org/x/tools/go/ssa"
@@ -26,9 +27,18 @@ func (run *FuncRun) loopSpec(fr *Frame, ord int) *LoopSpec {
 				return ls
 			}
 		}
-		// or by the nearest enclosing inlined function's own contract
+		// or by the nearest enclosing inlined function's own contract - unless that function
+		// iterates a function parameter (Range-like): its own loop contract cannot know what the
+		// caller's closure does, so a caller that gives no contract for the iteration gets no
+		// obligations (DEGRADED: "has no invariant"), never a heap forgotten wholesale followed by
+		// obligations that cannot be proved
 		if c := run.eng.contractFor(fr.fn); c != nil {
-			return c.Loops[fmt.Sprint(ord)]
+			if ls := c.Loops[fmt.Sprint(ord)]; ls != nil {
+				if run.contract != nil && os.Getenv("GOWP_INLINE_LOOP_FALLBACK") == "" && hasFuncParam(fr.fn) && run.contract.Key != c.Key {
+					return nil
+				}
+				return ls
+			}
 		}
 		return nil
 	}
@@ -586,4 +596,13 @@ func trimPkg(s string) string {
 		return s[i+1:]
 	}
 	return s
+}
+
+func hasFuncParam(fn *ssa.Function) bool {
+	for _, p := range fn.Params {
+		if _, ok := p.Type().Underlying().(*types.Signature); ok {
+			return true
+		}
+	}
+	return false
 }
